@@ -39,11 +39,13 @@ func toTwosComplement(res, x *big.Int, targetBitSize uint) *big.Int {
 	return res.SetBytes(bytes)
 }
 
-// toTwosComplement converts `res` to the big.Int representation from the two's complement format of a
-// signed integer.
-// `res` is returned and can be positive or negative.
-func fromTwosComplement(res *big.Int) *big.Int {
-	bytes := res.Bytes()
+// fromTwosComplement converts `res` to the big.Int representation from the two's complement format of a
+// signed integer of the given target bit size.
+// `res` must fit into the target bit size. The result can be positive or negative.
+func fromTwosComplement(res *big.Int, targetBitSize uint) *big.Int {
+	// NOTE: use the full width, so that the sign bit is the top bit of the target size,
+	// not the top bit of the most significant non-zero byte
+	bytes := res.FillBytes(make([]byte, targetBitSize/8))
 	return values.BigEndianBytesToSignedBigInt(bytes)
 }
 
@@ -668,7 +670,7 @@ func (v Int128Value) BitwiseLeftShift(context ValueStaticTypeContext, other Inte
 		res = toTwosComplement(res, v.BigInt, 128)
 		res = res.Lsh(res, uint(o.BigInt.Uint64()))
 		res = truncate(res, 128/bits.UintSize)
-		return fromTwosComplement(res)
+		return fromTwosComplement(res, 128)
 	}
 
 	return NewInt128ValueFromBigInt(context, valueGetter)
